@@ -16,7 +16,9 @@
 (***************************************************************************)
 EXTENDS Naturals, Sequences, FiniteSets, TLC, Json, SequencesExt, PreprocCore
 
-CONSTANTS MaxDir, MaxNest, Shard, NShards, EvalElifFirst, Rich
+CONSTANTS MaxDir, MaxNest, Shard, NShards, EvalElifFirst, Rich,
+          Skeleton   \* TRUE: conditions are the constants 0 / 1 only and there are no #define / #undef, so that
+                     \* much longer chain structures (deeper nesting, more directives) can be enumerated
 
 INSTANCE CbiVisitor
 
@@ -24,7 +26,8 @@ Macros == {"A", "B"}
 CfgVals == {"U", "", "0", "1", "2"}
 Cfgs == [Macros -> CfgVals]
 
-Conds == {[t |-> "def", m |-> "A"], [t |-> "ndef", m |-> "A"], [t |-> "val", m |-> "A"],
+Conds == IF Skeleton THEN {[t |-> "const", n |-> 0], [t |-> "const", n |-> 1]} ELSE
+         {[t |-> "def", m |-> "A"], [t |-> "ndef", m |-> "A"], [t |-> "val", m |-> "A"],
           [t |-> "eq", m |-> "A", n |-> 1], [t |-> "defand", m |-> "A", m2 |-> "B"],
           [t |-> "const", n |-> 0], [t |-> "const", n |-> 1], [t |-> "plus", m |-> "A"]}
          \cup (IF Rich THEN {[t |-> "def", m |-> "B"], [t |-> "eq", m |-> "B", n |-> 2],
@@ -54,10 +57,10 @@ AddElse == /\ ~done /\ open # <<>> /\ Top(open) = "if" /\ Room(0)
            /\ Add([k |-> "else"]) /\ open' = SetTop(open, "else")
 AddEndif == /\ ~done /\ open # <<>>
             /\ Add([k |-> "endif"]) /\ open' = Pop(open)
-AddDefine == /\ ~done /\ Room(0)
+AddDefine == /\ ~done /\ Room(0) /\ ~Skeleton
              /\ \E m \in Macros, v \in DefVals : Add([k |-> "define", m |-> m, v |-> v])
              /\ UNCHANGED open
-AddUndef == /\ ~done /\ Room(0)
+AddUndef == /\ ~done /\ Room(0) /\ ~Skeleton
             /\ \E m \in Macros : Add([k |-> "undef", m |-> m])
             /\ UNCHANGED open
 
